@@ -53,6 +53,8 @@ KINDS: dict[str, dict] = {
     "custom_nonstr": {"type": "custom", "tag_mode": "nonstr", "async": False},
     "file": {"type": "file", "mtime_in_tag": False},
     "file_mtime": {"type": "file", "mtime_in_tag": True},
+    # the configured path is a symbolic link; every write is an atomic rollout: new target file, link re-pointed, old target removed
+    "file_link": {"type": "file", "mtime_in_tag": False, "link": True},
     "http_etag": {"type": "http", "server_etags": True},
     "http_plain": {"type": "http", "server_etags": False},
     "s3_etag": {"type": "s3", "detector": "etag", "prefer": "sha256"},
@@ -409,6 +411,7 @@ class Env:
         self.id = next(_env_counter)
         t = self.kind["type"]
         self.path = None
+        self.version = 0
         self.server = None
         self.client = None
         if t == "custom":
@@ -430,6 +433,11 @@ class Env:
         self.proxy = AsyncProxy(self, self.inner) if self.kind.get("async") else SyncProxy(self, self.inner)
 
     def close(self):
+        if self.path and os.path.islink(self.path):
+            tgt = os.path.realpath(self.path)
+            os.unlink(self.path)
+            if os.path.exists(tgt):
+                os.unlink(tgt)
         if self.path and os.path.exists(self.path):
             os.unlink(self.path)
         if self.server is not None:
@@ -464,7 +472,21 @@ class Env:
             elif k == "fault_load":
                 self.inner.load_fault = op["cls"]
         elif t == "file":
-            if k == "write":
+            if k == "write" and self.kind.get("link"):
+                self.version += 1
+                target = f"{self.path}.v{self.version}"
+                with open(target, "wb") as f:
+                    f.write(op["content"].encode("utf-8"))
+                os.utime(target, ns=(op["mtime"], op["mtime"]))
+                old = os.path.realpath(self.path) if os.path.islink(self.path) else None
+                os.symlink(os.path.basename(target), self.path + ".new")
+                os.replace(self.path + ".new", self.path)
+                if old and old != target and os.path.exists(old):
+                    os.unlink(old)
+                st = os.stat(self.path)
+                if st.st_mtime_ns != op["mtime"] or st.st_size != op["size"]:
+                    raise lib.CheckError("file system does not keep exact mtimes/sizes")
+            elif k == "write":
                 with open(self.path, "wb") as f:
                     f.write(op["content"].encode("utf-8"))
                 os.utime(self.path, ns=(op["mtime"], op["mtime"]))
@@ -472,7 +494,12 @@ class Env:
                 if st.st_mtime_ns != op["mtime"] or st.st_size != op["size"]:
                     raise lib.CheckError("file system does not keep exact mtimes/sizes")
             elif k == "delete":
-                if os.path.exists(self.path):
+                if os.path.islink(self.path):
+                    tgt = os.path.realpath(self.path)
+                    os.unlink(self.path)
+                    if os.path.exists(tgt):
+                        os.unlink(tgt)
+                elif os.path.exists(self.path):
                     os.unlink(self.path)
             elif k == "touch":
                 if os.path.exists(self.path):
@@ -780,6 +807,10 @@ def execute(case: dict, tmpdir: str) -> tuple[list[dict], list[dict], list[dict]
         ops = [cz.op(e) for e in case["history"]]
         for o in init_ops:
             env.apply(o)
+        if env.kind.get("link"):
+            # the source object is created when the link (if the initial operations made one) is already in place, as a deployment does
+            env.inner = FilePolicySource(env.path, include_mtime_in_etag=env.kind["mtime_in_tag"])
+            env.proxy = SyncProxy(env, env.inner)
         cfg = CFGS[case["cfg"]]
         cache = CountingCache()
         guard = _guard()
@@ -1275,9 +1306,9 @@ def check(run: lib.Run, audit: dict) -> int:
     run.rule = ("exhaustive: every history of length ≤3 (quick) / ≤4 (thorough) over the event alphabet {write new valid doc, "
                 "write invalid doc, delete, check, forced check, check with a change between etag() and load(), short advance, "
                 "long advance, kind-specific fault (etag() raises / touch / HTTP error status / S3 HEAD failing), two overlapping checks, "
-                "and for custom/S3/file kinds an 11th event: one-shot load() failure / same-signature file write} "
+                "and for custom/S3/file/HTTP kinds an 11th event: one-shot load() failure / same-signature file write} "
                 "× initial_load on/off for the scripted custom source, the next length with a deterministic stride; the other 11 source "
-                "kinds (async custom, None/non-str tag, file ± mtime tag, HTTP ± server ETags, S3 etag / version_id / checksum×2) "
+                "kinds (async custom, None/non-str tag, file ± mtime tag, file behind a symbolic link re-pointed on every write, HTTP ± server ETags (HTTP status and transport faults), S3 etag / version_id / checksum×2) "
                 "exhaustive to length 2 (quick) / 3 (thorough) and strided above; every order of the source calls of two overlapping "
                 "checks × forced flags × a source change at every position × 3 contexts; seeded random histories of length ≤40 over "
                 "the extended alphabet (all exception classes, async checks, same-signature file writes, S3 flags). Every history ends "
